@@ -22,7 +22,7 @@ pub fn run(ctx: &Ctx, rep: &mut Report) {
     let mut cfgs = lattice_systematic(max_mn, max_ncap, false);
     let nrand = if ctx.thorough() { 300 } else { 20 };
     cfgs.extend(lattice_random(&mut ctx.rng(&format!("c07-lattice-{GROUP}"), 0), nrand, max_mn, max_ncap));
-    let reps = if ctx.thorough() { 4 } else { 1 };
+    let reps = if ctx.thorough() { 10 } else { 1 };
     let mut id = 0usize;
     for (k, cfg) in cfgs.iter().enumerate() {
         for r in 0..reps {
